@@ -1,10 +1,12 @@
 package main
 
-// Area "chosencases", round 4: a small SYMBOLIC EXECUTOR for the control code of the http provider.  It replaces the
-// text-shape matchers of rounds 1-3 (area_chosencases_loops.go replayLoop / fullScanLoop / httpRun, chosencasesFunc,
-// chosencasesRun, the filter part of chosencasesLoadAmmo), which broke on harmless rewrites (an inverted `if`, a local
-// declared inside the loop, an index loop instead of a range loop, `continue` instead of a nested `if`, two
-// independent guards in the other order).
+// Area "chosencases", round 4: a small SYMBOLIC EXECUTOR for the control code of the http provider (the drivers are in
+// area_chosencases_symloops.go: runPreloaded, runFullScan, Run, the filter loop of loadAmmo).  It replaces the text-shape
+// matchers of rounds 1-3 (replayLoop / fullScanLoop / httpRun of area_chosencases_loops.go, chosencasesRun, the filter
+// part of chosencasesLoadAmmo — all removed), which broke on harmless rewrites (an inverted `if`, a local declared
+// inside the loop, an index loop instead of a range loop, `continue` instead of a nested `if`, two independent guards
+// in the other order).  confutil.IsChosenCase is still read by the statement translator chosencasesFunc, the error
+// branch of loadAmmo by chosencasesLF, the deferred function of Run by area_chosencases_fin.go.
 //
 // Reading of Go (trusted):
 //   * identifiers are resolved through go/types (objects, not names): renaming a local changes nothing;
@@ -321,6 +323,12 @@ func (x *chosencasesSym) eval(e ast.Expr, st *chosencasesSt) chosencasesSV {
 			return chosencasesSV{kind: "str", lean: fmt.Sprintf("%q", constant.StringVal(tv.Value))}
 		}
 	}
+	if cls, ok := x.pkgErrClass(e); ok { // a sentinel of package decoders, context.Canceled
+		if cls == "deadline" {
+			cls = "errOther"
+		}
+		return chosencasesErrC(cls)
+	}
 	switch v := e.(type) {
 	case *ast.Ident:
 		if x.isNilIdent(v) {
@@ -400,6 +408,12 @@ func (x *chosencasesSym) binary(v *ast.BinaryExpr, st *chosencasesSt) chosencase
 				return chosencasesNot(r)
 			}
 			return r
+		case b.kind == "nil" && a.kind == "ref" && a.ref == "list" && (v.Op == token.EQL || v.Op == token.NEQ):
+			// a nil and an empty chosencases list are the same configuration
+			if v.Op == token.EQL {
+				return chosencasesProp("(chosenCases.length = 0)")
+			}
+			return chosencasesProp("(chosenCases.length ≠ 0)")
 		case b.kind == "nil" && a.kind == "ref" && (v.Op == token.EQL || v.Op == token.NEQ):
 			isNil := a.ref == "nilref"
 			return chosencasesConstProp(isNil == (v.Op == token.EQL))
